@@ -8,7 +8,7 @@ import itertools
 from fractions import Fraction as F
 
 from .. import oracle as O
-from ..core import Stats, pmap
+from ..core import Stats, guarded, pmap
 from ..world import World
 from .c01 import build_world
 
@@ -38,6 +38,7 @@ def grid(w, sym):
     return tm.quantum / um.scale
 
 
+@guarded('C06')
 def run_alloc(w, sym, amount, ratios, disperse, mode, st=None, sym2=None):
     """ratios: list of number codes, or of [unit symbol, number code]"""
     Q = w.q
